@@ -252,7 +252,11 @@ func (g *gen) mapKey() *Type {
 		return Prim(keyPrimsRuntime[g.intn("mapKeyR", len(keyPrimsRuntime))])
 	}
 	keys := []string{"string", "int32", "uint8", "int64", "uint64", "int16", "bool", "size", "uint32", "int8", "uint16", "float32", "float64", "date", "time", "datetime"}
-	return Prim(keys[g.intn("mapKey", len(keys))])
+	k := keys[g.intn("mapKey", len(keys))]
+	if (k == "date" || k == "time" || k == "datetime") && g.cfg.excluded("map-key-chrono") {
+		k = "int64"
+	}
+	return Prim(k)
 }
 
 func (g *gen) arrayElem(depth int) *Type {
@@ -635,6 +639,17 @@ func (g *gen) aliasDef(name string) *Def {
 	g.params = d.TypeParams
 	g.used = map[string]bool{}
 	d.Type = g.top(1)
+	if g.cfg.Excl["union-nested-in-alias"] {
+		for tries := 0; tries < 6 && hasNestedUnion(d.Type); tries++ {
+			if g.cfg.ExclCount != nil {
+				g.cfg.ExclCount["union-nested-in-alias"]++
+			}
+			d.Type = g.top(1)
+		}
+		if hasNestedUnion(d.Type) {
+			d.Type = Vector(Prim("int32"))
+		}
+	}
 	if g.cfg.Excl["generic-identity-alias"] && d.Type.Kind == KParam {
 		if g.cfg.ExclCount != nil {
 			g.cfg.ExclCount["generic-identity-alias"]++
@@ -778,4 +793,15 @@ func paramsUsed(d *Def) map[string]bool {
 		})
 	})
 	return m
+}
+
+// hasNestedUnion: a union below the top level of the type (inside a vector, array, map, ...).
+func hasNestedUnion(t *Type) bool {
+	found := false
+	Walk(t, func(x *Type) {
+		if x != t && x.Kind == KUnion {
+			found = true
+		}
+	})
+	return found
 }
